@@ -11,6 +11,8 @@ CELLS = {'ortho': np.array([[10.5, 0, 0], [0, 11.25, 0], [0, 0, 13.0]]),
          # two right angles only: hexagonal (gamma = 120) and monoclinic in the c-unique setting
          'hex': np.array([[10.0, 0, 0], [-5.5, 9.526279441628825, 0], [0, 0, 13.0]]),
          'mono-c': np.array([[10.5, 0, 0], [2.5, 11.0, 0], [0, 0, 12.25]]),
+         # a slightly strained orthorhombic cell: angles 90.008, 89.994, 89.992 degrees
+         'strained': np.array([[10.5, 0, 0], [0.0015, 11.25, 0], [0.0012, -0.0016, 13.0]]),
          'rot': np.array([[10.5, 0, 0], [1.5, 11.25, 0], [-2.25, 0.75, 13.0]]).dot(
              np.array([[0.36, 0.48, -0.8], [-0.8, 0.6, 0.0], [0.48, 0.64, 0.6]]))}
 
